@@ -21,6 +21,7 @@ import (
 	"io"
 	"os"
 	"runtime/debug"
+	"runtime/pprof"
 	"sort"
 	"strings"
 	"time"
@@ -295,18 +296,49 @@ func maxChunkClass(seqs ...[]valSpec) string {
 	return "chunk<=512"
 }
 
-type collector struct {
-	run   *ev.Run
-	cands map[string]ev.Violation
-	order []string
+// collector keeps, per Sig, the candidate with the smallest program (steps, then values); the parent then takes
+// the smallest over all jobs (ties: lowest job index), so the reported example is minimal and deterministic.
+type cand struct {
+	V    ev.Violation `json:"v"`
+	Cost int          `json:"cost"`
 }
 
-func (c *collector) violate(sig, detail string, replay any) {
-	if _, ok := c.cands[sig]; ok {
+type collector struct {
+	run   *ev.Run
+	cands map[string]cand
+}
+
+func progCost(prog []step) int {
+	c := 0
+	for _, s := range prog {
+		c += 1000 + 10*len(s.Sizes)
+		for _, z := range s.Sizes {
+			if z > 600 {
+				c++
+			}
+		}
+	}
+	return c
+}
+
+func (c *collector) violate(sig, detail string, replay any, cost int) {
+	if o, ok := c.cands[sig]; ok && o.Cost <= cost {
 		return
 	}
-	c.cands[sig] = ev.Violation{Sig: sig, Detail: detail, Replay: replay}
-	c.order = append(c.order, sig)
+	c.cands[sig] = cand{V: ev.Violation{Sig: sig, Detail: detail, Replay: replay}, Cost: cost}
+}
+
+func (c *collector) list() []cand {
+	var keys []string
+	for k := range c.cands {
+		keys = append(keys, k)
+	}
+	sort.Strings(keys)
+	var l []cand
+	for _, k := range keys {
+		l = append(l, c.cands[k])
+	}
+	return l
 }
 
 func describe(seq []valSpec) string {
@@ -338,17 +370,20 @@ func runProgram(c *collector, bk string, prog []step, stats map[string]int64) {
 	replay := map[string]any{"backend": bk, "program": prog}
 	// A step that only deletes chunk items (Remove of an existing entry, Update/Upsert of an existing entry with
 	// zero values) is a distinct input class: on the infs backends it is a transaction consisting of removals only.
-	marker := "no-removal-only-step"
+	marker := ""
+	cost := progCost(prog)
 	viol := func(kind, class, detail string) {
 		stats["failed_checks"]++
 		stats["failed_"+kind]++
-		c.violate(kind+"|"+class+"|"+bk+"|"+marker, fmt.Sprintf("%s backend, program %v: %s", bk, prog, detail), replay)
+		c.violate(kind+"|"+class+marker, fmt.Sprintf("%s backend, program %v: %s", bk, prog, detail), replay, cost)
 	}
 	for i, s := range prog {
 		old := mdl[s.Key]
 		nw := specsFor(i, s)
 		if len(old) > 0 && (s.Op == "Remove" || ((s.Op == "Update" || s.Op == "Upsert") && len(nw) == 0)) {
-			marker = "has-removal-only-step"
+			if bk == "infs-big" {
+				marker = "|removal-only-transaction-on-actively-persisted-store"
+			}
 		}
 		removed, noop, err := b.apply(i, s)
 		last := i == len(prog)-1
@@ -445,13 +480,22 @@ func runProgram(c *collector, bk string, prog []step, stats map[string]int64) {
 	}
 	for ki, name := range keyNames {
 		exp := mdl[ki]
-		var want bytes.Buffer
+		var want, have bytes.Buffer
+		tot := 0
 		for _, v := range exp {
-			jb, _ := json.Marshal(v.payload())
-			want.Write(jb)
-			want.WriteByte('\n')
+			tot += v.chunkLen()
 		}
-		var have bytes.Buffer
+		want.Grow(tot)
+		for _, ch := range got[name] {
+			tot -= len(ch.b)
+		}
+		have.Grow(want.Cap() - tot)
+		for _, v := range exp {
+			// payload characters are [a-zA-Z0-9]: the JSON encoding is the payload in quotes; Encode appends '\n'.
+			want.WriteByte('"')
+			want.WriteString(v.payload())
+			want.WriteString("\"\n")
+		}
 		var idxs []int
 		contiguous := true
 		for j, ch := range got[name] {
@@ -501,12 +545,17 @@ func runProgram(c *collector, bk string, prog []step, stats map[string]int64) {
 		limit := 4*len(exp) + 4
 		var vals []string
 		var derr error
+		// bounded loop: a reader that repeats a chunk never reports EOF. The verdict is fixed as soon as a value
+		// differs or one value more than written has been produced, so the loop stops there (limit is the hard bound).
 		for len(vals) < limit {
 			var s string
 			if derr = dec.Decode(&s); derr != nil {
 				break
 			}
 			vals = append(vals, s)
+			if len(vals) > len(exp) || s != exp[len(vals)-1].payload() {
+				break
+			}
 		}
 		class := maxChunkClass(exp)
 		bad := -1
@@ -529,7 +578,7 @@ func runProgram(c *collector, bk string, prog []step, stats map[string]int64) {
 					}
 				}
 			}
-			viol("decode-extra", class, fmt.Sprintf("%s written as %d values %s: the decoder yields at least %d values and no end of stream within the bound %d%s; last error: %v", name, len(exp), describe(exp), len(vals), limit, rep, derr))
+			viol("decode-extra", class, fmt.Sprintf("%s written as %d values %s: after them the decoder yields a further value instead of end of stream%s", name, len(exp), describe(exp), rep))
 		case derr != io.EOF:
 			viol("decode-error", class, fmt.Sprintf("%s written as %s: after %d values the decoder fails with %v (want io.EOF after %d)", name, describe(exp), len(vals), derr, len(exp)))
 		case len(vals) < len(exp):
@@ -553,6 +602,8 @@ var sizesSmall = []int{100, 513}
 var sizesFull = []int{1, 100, 511, 512, 513, 4096, 70000}
 var sizesFullThorough = []int{1, 100, 511, 512, 513, 4096, 70000, 1 << 20}
 
+var only513 = []int{513}
+
 func plans(thorough bool) []plan {
 	full := sizesFull
 	if thorough {
@@ -560,21 +611,26 @@ func plans(thorough bool) []plan {
 	}
 	p := []plan{
 		{Name: "mem-depth3-sizes{100,513}", Backend: "mem", Levels: [][]int{sizesSmall, sizesSmall, sizesSmall}},
-		{Name: "mem-full-then-small", Backend: "mem", Levels: [][]int{full, sizesSmall}},
-		{Name: "mem-small-then-full", Backend: "mem", Levels: [][]int{sizesSmall, full}, Exact: true},
+	}
+	if thorough {
+		p = append(p,
+			plan{Name: "mem-full-then-{100,513}", Backend: "mem", Levels: [][]int{full, sizesSmall}},
+			plan{Name: "mem-{100,513}-then-full", Backend: "mem", Levels: [][]int{sizesSmall, full}, Exact: true},
+			plan{Name: "mem-depth4-sizes{513}", Backend: "mem", Levels: [][]int{only513, only513, only513, only513}})
+	} else {
+		p = append(p,
+			plan{Name: "mem-full-then-{513}", Backend: "mem", Levels: [][]int{full, only513}},
+			plan{Name: "mem-{513}-then-full", Backend: "mem", Levels: [][]int{only513, full}, Exact: true})
 	}
 	for _, bk := range []string{"infs-big", "infs-medium"} {
 		p = append(p,
-			plan{Name: bk + "-depth2-sizes{100,513}", Backend: bk, Levels: [][]int{sizesSmall, sizesSmall}},
+			plan{Name: bk + "-depth2-sizes{513}", Backend: bk, Levels: [][]int{only513, only513}},
 			plan{Name: bk + "-depth1-full", Backend: bk, Levels: [][]int{full}})
-	}
-	if thorough {
-		p[0] = plan{Name: "mem-depth4-sizes{100,513}", Backend: "mem", Levels: [][]int{sizesSmall, sizesSmall, sizesSmall, sizesSmall}}
-		for _, bk := range []string{"infs-big", "infs-medium"} {
+		if thorough {
 			p = append(p,
-				plan{Name: bk + "-depth3-sizes{513}", Backend: bk, Levels: [][]int{{513}, {513}, {513}}},
-				plan{Name: bk + "-full-then-513", Backend: bk, Levels: [][]int{full, {513}}, Exact: true},
-				plan{Name: bk + "-513-then-full", Backend: bk, Levels: [][]int{{513}, full}, Exact: true})
+				plan{Name: bk + "-depth3-sizes{513}", Backend: bk, Levels: [][]int{only513, only513, only513}, Exact: true},
+				plan{Name: bk + "-depth2-sizes{100,513}", Backend: bk, Levels: [][]int{sizesSmall, sizesSmall}, Exact: true},
+				plan{Name: bk + "-full-then-{513}", Backend: bk, Levels: [][]int{full, only513}, Exact: true})
 		}
 	}
 	return p
@@ -592,7 +648,7 @@ func runPlan(c *collector, run *ev.Run, p plan, from, to int, stats map[string]i
 		d := len(prog)
 		if d > 0 && (!p.Exact || d == len(p.Levels)) {
 			runProgram(c, p.Backend, prog, stats)
-			if !sampled && d == len(p.Levels) {
+			if d == len(p.Levels) && (!sampled || len(prog[d-1].Sizes) == 2) && len(prog[0].Sizes) > 0 {
 				sampled = true
 				var l []string
 				for _, s := range prog {
@@ -631,7 +687,7 @@ func replayFile(run *ev.Run, path string) {
 	if f.Replay.Backend == "" {
 		bks = []string{"mem", "infs-big", "infs-medium"}
 	}
-	c := &collector{run: run, cands: map[string]ev.Violation{}}
+	c := &collector{run: run, cands: map[string]cand{}}
 	stats := map[string]int64{}
 	for _, bk := range bks {
 		runProgram(c, bk, f.Replay.Program, stats)
@@ -639,8 +695,8 @@ func replayFile(run *ev.Run, path string) {
 	if infsDir != "" {
 		os.RemoveAll(infsDir)
 	}
-	for _, s := range c.order {
-		run.Violate(c.cands[s])
+	for _, cd := range c.list() {
+		run.Violate(cd.V)
 	}
 	run.Set("evaluations", stats["decode_checks"]+stats["chunk_checks"])
 	run.Set("distinct_nontrivial", stats["programs"])
@@ -664,11 +720,17 @@ func main() {
 	}
 	if job := ev.Job(); job != "" {
 		debug.SetGCPercent(400)
+		if pf := os.Getenv("C31_PROF"); pf != "" {
+			f, _ := os.Create(pf)
+			pprof.StartCPUProfile(f)
+			defer pprof.StopCPUProfile()
+			defer func() { pprof.StopCPUProfile(); f.Close() }()
+		}
 		var idx, pi, chunk, nchunks int
 		fmt.Sscanf(job, "%d:%d:%d:%d", &idx, &pi, &chunk, &nchunks)
 		p := pl[pi]
 		n := len(alphabet(p.Levels[0]))
-		c := &collector{run: run, cands: map[string]ev.Violation{}}
+		c := &collector{run: run, cands: map[string]cand{}}
 		stats := map[string]int64{}
 		runPlan(c, run, p, chunk*n/nchunks, (chunk+1)*n/nchunks, stats)
 		if infsDir != "" {
@@ -678,13 +740,10 @@ func main() {
 			run.Add(k, v)
 		}
 		run.Add("programs_"+p.Backend, stats["programs"])
-		var l []ev.Violation
-		for _, s := range c.order {
-			l = append(l, c.cands[s])
-		}
-		if len(l) > 0 {
+		if l := c.list(); len(l) > 0 {
 			run.Set("candidates", l)
 		}
+		pprof.StopCPUProfile()
 		run.EmitPartial()
 	}
 	var jobs []string
@@ -715,6 +774,7 @@ func main() {
 	}
 	sort.Strings(names)
 	seenPlan := map[string]bool{}
+	best := map[string]cand{}
 	for _, jn := range names {
 		ex, _ := pj[jn].(map[string]any)
 		if ex == nil {
@@ -722,16 +782,21 @@ func main() {
 		}
 		if cl, ok := ex["candidates"]; ok {
 			b, _ := json.Marshal(cl)
-			var l []ev.Violation
+			var l []cand
 			json.Unmarshal(b, &l)
 			for _, v := range l {
-				run.Violate(v)
+				if o, ok := best[v.V.Sig]; !ok || v.Cost < o.Cost {
+					best[v.V.Sig] = v
+				}
 			}
 		}
 		if s, ok := ex["sample"].(map[string]any); ok && !seenPlan[fmt.Sprint(s["plan"])] {
 			seenPlan[fmt.Sprint(s["plan"])] = true
 			run.Sample(s)
 		}
+	}
+	for _, v := range best {
+		run.Violate(v.V)
 	}
 	delete(run.Coverage, "per_job")
 	cov := run.Coverage
